@@ -347,6 +347,13 @@ pub(crate) mod test_executor {
     }
 }
 
+// verification hook (guard: --cfg ipa_verif); harness source lives outside the repository
+#[cfg(all(test, ipa_verif))]
+#[allow(warnings, clippy::all, clippy::pedantic)]
+mod verif {
+    include!(concat!(env!("IPA_VERIF_DIR"), "/h1_lib.rs"));
+}
+
 pub const CRATE_NAME: &str = env!("CARGO_CRATE_NAME");
 
 /// This macro should be called in a binary that uses `ipa_core`, if that binary wishes
